@@ -1,0 +1,223 @@
+//! C16 adapter, executor part: the real `QueryExecutor` driven with scripted substreams.
+//!
+//! Every future runs on a `Substream` over an in-memory pipe (`verif::io`) whose remote end follows
+//! a script of timed events (`w` the pipe becomes writable, `reset`, `msg` a frame arrives, `eof`,
+//! `junk` an oversized frame arrives). Time is the paused tokio clock in whole seconds: `x tick n`
+//! advances second by second, applies the events that are due and polls the executor; every result
+//! is printed with the second at which the executor yielded it.
+//!
+//! `x sub <id> <kind> [big] <ev>@<t>...` submits a future (`kind`: `send` = `send_message`,
+//! `sendeat` = `send_message_eat_failure`, `read` = `read_message`, `reqresp` =
+//! `send_request_read_response`, `reqeat` = `send_request_eat_response_failure`), `big` makes the
+//! outgoing message larger than the codec allows. Result token:
+//! `res:<id>:<result>:<1 if the remote end holds the complete outgoing frame>@<second>`.
+
+use super::super::{
+    executor::{FailureReason, QueryContext, QueryExecutor, QueryResult},
+    QueryId,
+};
+use crate::{
+    codec::ProtocolCodec,
+    substream::Substream,
+    types::SubstreamId,
+    verif::{
+        io::{frame, pipe, unframe, PipeCtl},
+        peer,
+    },
+};
+
+use bytes::Bytes;
+use futures::{FutureExt, StreamExt};
+
+use std::time::Duration;
+
+/// Largest frame of the scripted substreams.
+const MAX_FRAME: usize = 64;
+/// Highest future id / event time / tick count accepted.
+const LIMIT: u64 = 200;
+
+#[derive(Clone, Copy, PartialEq)]
+enum Ev {
+    Writable,
+    Reset,
+    Msg,
+    Eof,
+    Junk,
+}
+
+struct Slot {
+    id: u64,
+    ctl: PipeCtl,
+    payload: Vec<u8>,
+    received: Vec<u8>,
+}
+
+pub(super) struct ExecBox {
+    executor: QueryExecutor,
+    now: u64,
+    slots: Vec<Slot>,
+    /// `(due second, slot index, event)` in submission order.
+    schedule: Vec<(u64, usize, Ev)>,
+}
+
+impl ExecBox {
+    pub(super) fn new() -> Self {
+        Self {
+            executor: QueryExecutor::new(),
+            now: 0,
+            slots: Vec::new(),
+            schedule: Vec::new(),
+        }
+    }
+
+    fn apply_due(&mut self) {
+        let now = self.now;
+        let mut rest = Vec::new();
+        for (due, slot, ev) in std::mem::take(&mut self.schedule) {
+            if due > now {
+                rest.push((due, slot, ev));
+                continue;
+            }
+            let ctl = &self.slots[slot].ctl;
+            match ev {
+                Ev::Writable => ctl.set_cap(1 << 16),
+                Ev::Reset => ctl.reset(),
+                Ev::Msg => ctl.remote_write(&frame(b"reply")),
+                Ev::Eof => ctl.remote_close(),
+                // length prefix announcing more than the codec allows
+                Ev::Junk => ctl.remote_write(&[100u8, 1, 2, 3]),
+            }
+        }
+        self.schedule = rest;
+    }
+
+    /// Poll the executor until it has nothing ready; one token per yielded result.
+    fn poll(&mut self) -> Vec<String> {
+        let mut out = Vec::new();
+        while let Some(Some(QueryContext {
+            peer: got_peer,
+            query_id,
+            result,
+        })) = self.executor.next().now_or_never()
+        {
+            let id = query_id.map_or(u64::MAX, |q| q.0 as u64);
+            let kind = match &result {
+                QueryResult::SendSuccess { .. } => "sendok",
+                QueryResult::AssumeSendSuccess => "assumeok",
+                QueryResult::SendFailure {
+                    reason: FailureReason::Timeout,
+                } => "sendfail.timeout",
+                QueryResult::SendFailure {
+                    reason: FailureReason::SubstreamClosed,
+                } => "sendfail.closed",
+                QueryResult::ReadSuccess { message, .. } =>
+                    if &message[..] == b"reply" {
+                        "readok"
+                    } else {
+                        "readok.wrong-message"
+                    },
+                QueryResult::ReadFailure {
+                    reason: FailureReason::Timeout,
+                } => "readfail.timeout",
+                QueryResult::ReadFailure {
+                    reason: FailureReason::SubstreamClosed,
+                } => "readfail.closed",
+            };
+            let written = match self.slots.iter_mut().find(|s| s.id == id) {
+                Some(slot) => {
+                    let bytes = slot.ctl.remote_read_all();
+                    slot.received.extend_from_slice(&bytes);
+                    let (frames, _) = unframe(&slot.received);
+                    let wrong_peer = got_peer != peer(id);
+                    if wrong_peer {
+                        "wrong-peer"
+                    } else if frames.first().is_some_and(|f| f[..] == slot.payload[..]) {
+                        "1"
+                    } else {
+                        "0"
+                    }
+                }
+                None => "unknown-id",
+            };
+            // a substream handed back is dropped here, like after `substream.close()`
+            drop(result);
+            out.push((id, format!("res:{id}:{kind}:{written}@{}", self.now)));
+        }
+        out.sort();
+        out.into_iter().map(|(_, t)| t).collect()
+    }
+
+    pub(super) async fn step(&mut self, t: &[&str]) -> Option<String> {
+        match t {
+            ["sub", id, kind, rest @ ..] => {
+                let id = id.parse::<u64>().ok().filter(|i| *i <= LIMIT)?;
+                if self.slots.iter().any(|s| s.id == id) {
+                    return None;
+                }
+                let mut big = false;
+                let mut events = Vec::new();
+                for arg in rest {
+                    if *arg == "big" {
+                        big = true;
+                        continue;
+                    }
+                    let (name, at) = arg.split_once('@')?;
+                    let at = at.parse::<u64>().ok().filter(|a| *a <= LIMIT)?;
+                    let ev = match name {
+                        "w" => Ev::Writable,
+                        "reset" => Ev::Reset,
+                        "msg" => Ev::Msg,
+                        "eof" => Ev::Eof,
+                        "junk" => Ev::Junk,
+                        _ => return None,
+                    };
+                    events.push((at, ev));
+                }
+                if !["send", "sendeat", "read", "reqresp", "reqeat"].contains(kind) {
+                    return None;
+                }
+                let (end, ctl) = pipe(0);
+                let payload = vec![0x42u8; if big { MAX_FRAME + 1 } else { 5 }];
+                let substream = Substream::new_verif(
+                    peer(id),
+                    SubstreamId::from(id as usize),
+                    Box::new(end),
+                    ProtocolCodec::UnsignedVarint(Some(MAX_FRAME)),
+                );
+                let slot = self.slots.len();
+                self.slots.push(Slot {
+                    id,
+                    ctl,
+                    payload: payload.clone(),
+                    received: Vec::new(),
+                });
+                for (at, ev) in events {
+                    self.schedule.push((self.now + at, slot, ev));
+                }
+                self.apply_due();
+                let (p, q, message) = (peer(id), Some(QueryId(id as usize)), Bytes::from(payload));
+                match *kind {
+                    "send" => self.executor.send_message(p, q, message, substream),
+                    "sendeat" => self.executor.send_message_eat_failure(p, q, message, substream),
+                    "read" => self.executor.read_message(p, q, substream),
+                    "reqresp" => self.executor.send_request_read_response(p, q, message, substream),
+                    _ => self.executor.send_request_eat_response_failure(p, q, message, substream),
+                }
+                let results = self.poll();
+                Some(format!("ok {}", results.join(" ")).trim_end().to_string())
+            }
+            ["tick", n] => {
+                let n = n.parse::<u64>().ok().filter(|n| *n <= LIMIT)?;
+                let mut results = Vec::new();
+                for _ in 0..n {
+                    tokio::time::advance(Duration::from_secs(1)).await;
+                    self.now += 1;
+                    self.apply_due();
+                    results.extend(self.poll());
+                }
+                Some(format!("ok {}", results.join(" ")).trim_end().to_string())
+            }
+            _ => None,
+        }
+    }
+}
